@@ -8,13 +8,17 @@ CHECK = {'rule': 'three case kinds around the real varutil.ReadArguments / argsc
          'of (a)/(c)/fuzz the independent reference splitter accepts): args byte-for-byte, eof flag, bytes consumed after every call, number of '
          'calls. Non-trivial: the input contains a quote, a backslash, a heredoc opener, a byte >= 0x80 or a second command (inject: named and '
          'positional arguments both occur, or the rendered line satisfies the rule). Distinct = distinct case JSON (FNV-64); enumerated strings '
-         'longer than 6 are counted (counter enum_nontrivial_len7plus_not_hashed) but not hashed.',
+         'longer than 6 are counted (counter enum_nontrivial_len7plus_not_hashed) but not hashed. Second exhaustive family (TestEnumHeredoc): '
+         "'k=<<M NL body NL M t NL n x NL' for M in {AB, AAB, ABAB} and every body of length <= 7 (quick) / <= 9 (thorough) over {A, B, NL, blank, x}. "
+         'Heredoc content lines include proper prefixes of the marker (also as last line), the marker inside a line, prefix-then-other, empty and '
+         'blank-only lines. A heredoc whose blank-trimmed text is empty or starts/ends with NL/CR/VT/FF is NOT excluded any more: its text is '
+         'compared modulo surrounding ASCII white space, everything else (no error, other arguments, eof, bytes consumed, next command) exactly.',
  'assumptions': ['blank = space or tab; escapes outside quotes are exactly \\\\ and \\" (as pinned by varutil/arguments_test.go)',
                  'adjacent bare and quoted pieces form one argument (numbers="12 12" in the library\'s own tests)',
                  'not asserted (never generated / rejected by the reference splitter): a backslash before any other byte, a backslash inside quotes '
                  'other than \\", a newline or end of input inside quotes, a continuation directly between two argument bytes, heredocs with zero '
-                 'content lines, with a content line starting with the marker, without terminator, or whose blank-trimmed text starts/ends with '
-                 "CR/VT/FF/NL; '=' inside a named value, positional arguments starting with '-', duplicate names",
+                 'content lines, with a content line starting with the marker, without terminator; the exact surrounding white space of a heredoc '
+                 "text that starts/ends with an empty/CR/VT/FF line; '=' inside a named value, positional arguments starting with '-', duplicate names",
                  'error presence only; error texts never compared'],
  'essential_labels': {'all': ['arg-starts-with-escape',
                               'escape-outside-quotes',
@@ -34,12 +38,24 @@ CHECK = {'rule': 'three case kinds around the real varutil.ReadArguments / argsc
                               'inject-via-string',
                               'inject-dashdash',
                               'inject-interleaved',
-                              'inject-dashed-name']},
+                              'inject-dashed-name',
+                              'heredoc-marker-prefix-line',
+                              'heredoc-marker-prefix-last-line',
+                              'heredoc-marker-inside-line',
+                              'heredoc-marker-prefix-then-other',
+                              'heredoc-overlapping-marker',
+                              'heredoc-empty-last-line',
+                              'heredoc-open-text',
+                              'bytes-heredoc-in-grammar',
+                              'bytes-heredoc-multiline',
+                              'bytes-heredoc-open-text']},
  'tiers': {'quick': [{'test': '^TestEnum$', 'shards': 4, 'timeout': 240},
+                     {'test': '^TestEnumHeredoc$', 'shards': 2, 'timeout': 240, 'env': {'VERIF_C17_HEREDOC_LEN': 7}},
                      {'test': '^TestPropGrammar$', 'checks': 80000, 'shards': 4, 'timeout': 240},
                      {'test': '^TestPropBytes$', 'checks': 100000, 'shards': 2, 'timeout': 240, 'seed_offset': 101},
                      {'test': '^TestPropInject$', 'checks': 60000, 'shards': 2, 'timeout': 240, 'seed_offset': 202}],
            'thorough': [{'test': '^TestEnum$', 'shards': 16, 'timeout': 1500},
+                        {'test': '^TestEnumHeredoc$', 'shards': 8, 'timeout': 1500},
                         {'test': '^TestPropGrammar$', 'checks': 300000, 'shards': 16, 'timeout': 1500},
                         {'test': '^TestPropBytes$', 'checks': 300000, 'shards': 8, 'timeout': 1500, 'seed_offset': 101},
                         {'test': '^TestPropInject$', 'checks': 200000, 'shards': 8, 'timeout': 1500, 'seed_offset': 202},
